@@ -588,6 +588,9 @@ func c09Conn(c *ctx, rg *c09Rig, sp *c09Spec, hello map[string][]byte, r *rand.R
 	}
 	if strings.HasPrefix(sp.Kind, "ws") {
 		class += "/101-" + sp.WS101
+		if sp.HelloMode == "coalesced" && sp.WS101 == "whole" {
+			class += "/bytes-sent-with-the-upgrade-request"
+		}
 	}
 	in := map[string]any{"Spec": fmt.Sprintf("%+v", struct {
 		ID, Kind, Close, HelloMode, WS101 string
@@ -655,7 +658,15 @@ func c09Conn(c *ctx, rg *c09Rig, sp *c09Spec, hello map[string][]byte, r *rand.R
 			conn.Write(append(append([]byte{}, sniHello...), prelude...))
 		}
 	case "ws", "wss":
-		fmt.Fprintf(conn, "GET /ws/%s HTTP/1.1\r\nHost: "+sp.Kind+".test\r\nUpgrade: websocket\r\nConnection: Upgrade\r\nSec-WebSocket-Key: dGhlIHNhbXBsZSBub25jZQ==\r\nSec-WebSocket-Version: 13\r\n\r\n", sp.ID)
+		upg := fmt.Sprintf("GET /ws/%s HTTP/1.1\r\nHost: "+sp.Kind+".test\r\nUpgrade: websocket\r\nConnection: Upgrade\r\nSec-WebSocket-Key: dGhlIHNhbXBsZSBub25jZQ==\r\nSec-WebSocket-Version: 13\r\n\r\n", sp.ID)
+		// an eager client sends the start of its stream in one segment with the upgrade request (like bytes that follow a
+		// ClientHello): they are the first bytes of the tunnel
+		eager := sp.HelloMode == "coalesced" && sp.WS101 == "whole"
+		if eager {
+			conn.Write(append([]byte(upg), prelude...))
+		} else {
+			conn.Write([]byte(upg))
+		}
 		br := bufio.NewReader(conn)
 		status, err := br.ReadString('\n')
 		if err != nil || !strings.HasPrefix(status, "HTTP/1.1 101") {
@@ -676,7 +687,9 @@ func c09Conn(c *ctx, rg *c09Rig, sp *c09Spec, hello map[string][]byte, r *rand.R
 			// bytes that followed the 101 belong to the upstream's stream
 			conn = &bufReaderConn{Conn: conn, br: br}
 		}
-		conn.Write(prelude)
+		if !eager {
+			conn.Write(prelude)
+		}
 	default:
 		conn.Write(prelude)
 	}
